@@ -156,9 +156,16 @@ impl Decoder for ServerAeadCodec {
     fn decode(&mut self, src: &mut BytesMut) -> Result<Option<Self::Item>, Self::Error> {
         match self.decode_state {
             DecodeState::Init => {
+                if src.len() < 16 {
+                    return Ok(None);
+                }
                 let auth_id = &src[0..16];
                 if let Some(key) = auth_id::matching(auth_id, &self.keys)? {
                     if let Some(header) = encrypt::open_header(&key, src)? {
+                        // version, body iv and key, response byte, options, padding/security, reserved, command .. fnv1a32
+                        if header.len() < 1 + 16 + 16 + 1 + 1 + 1 + 1 + 1 + 4 {
+                            bail!("request header is too short")
+                        }
                         let data = header[..header.len() - 4].to_vec();
                         let mut header = Bytes::from(header);
                         let version = header.get_u8();
@@ -178,6 +185,9 @@ impl Decoder for ServerAeadCodec {
                         }
                         let command = if command == RequestCommand::TCP as u8 { RequestCommand::TCP } else { RequestCommand::UDP };
                         let address = address::read_address_port(&mut header)?;
+                        if header.remaining() < padding_len as usize + 4 {
+                            bail!("request header is too short")
+                        }
                         header.advance(padding_len as usize);
                         let actual = header.get_u32();
                         if fnv::fnv1a32(&data) != actual {
